@@ -23,42 +23,52 @@ def check(ctx):
     q = ctx.quick
     binp = ctx.build("statejournal")
 
-    # 1. design level, exhaustive: journal/barrier mechanism = plain map with snapshots; Stage = canonical content
-    #    quick: one address, 2 keys, <= 5 operations (deep: barrier x checkpoints x stage/commit/reopen); the wide universe
-    #    (2 addresses, master, code, 3 values) is checked by the exporting config of step 2 (<= 3 operations)
-    ctx.tlc_must_hold(sc.SUB, "MC_StateJournal", cfg="MC_StateJournal_quick.cfg" if q else "MC_StateJournal_narrow6.cfg",
-                      workers=4 if q else 8, timeout=900 if q else 3600, heap="4g" if q else "8g",
-                      label="journal: exhaustive, 1 address x 2 keys x values {0,1}, 10 bases, deep")
+    # 1. design level, exhaustive: journal/barrier mechanism = plain map with snapshots; Stage = canonical content;
+    #    statedb side journal = plain copy.  All journal configs of step 2 check the design invariants AND export.
     if not q and os.environ.get("VERIF_C06_DEEP"):
         # optional (measured: 7.19 M distinct states, 21-24 min on the shared machine): the wide universe with <= 5 operations;
         # by default the wide universe is covered up to 4 operations by the exporting config of step 2
         ctx.tlc_must_hold(sc.SUB, "MC_StateJournal", cfg="MC_StateJournal_deep.cfg", workers=8, timeout=5400, heap="8g",
                           label="journal: exhaustive, 2 addresses x 2 keys x values {0,1,2}, 10 bases, <= 5 operations")
-    ctx.tlc_must_hold(sc.SUB, "MC_Trie", cfg="MC_Trie_27_quick.cfg" if q else "MC_Trie_27_thorough.cfg", workers=4 if q else 8,
-                      timeout=900 if q else 2400, heap="4g" if q else "8g", label="trie: 27 keys of 3 nibbles, bounded sequences")
+    if not q:
+        # quick relies on the keys9 config of step 3 (all contents, every transition); the 27-key universe is thorough-only
+        ctx.tlc_must_hold(sc.SUB, "MC_Trie", cfg="MC_Trie_27_thorough.cfg", workers=8, timeout=2400, heap="8g",
+                          label="trie: 27 keys of 3 nibbles, <= 5 operations")
 
     # 2. model -> implementation (journal): every distinct abstract state of the bounded model, by one representative
     #    history, plus random deep walks, replayed on a real state.State over a real muxdb
-    roots, rstats = {}, {}
-    path, n_exh, r = sc.export_behaviours(ctx, "MC_StateJournal_export3.cfg" if q else "MC_StateJournal_export4.cfg",
-                                          "exhaustive", 900 if q else 3000)
+    roots, rstats, rfiles = {}, {}, []
+    #    narrow and deep: one address, 2 keys, <= 5 (6) operations - write, stage, commit, reopen, write again; delete,
+    #    recreate, checkpoints: the exhaustive replays re-open MODIFIED bases
+    path, n_nar, r = sc.export_behaviours(ctx, "MC_StateJournal_quick.cfg" if q else "MC_StateJournal_narrow6.cfg",
+                                          "narrow", 900 if q else 3600, workers=4 if q else 8)
     exhaustive_states = r.distinct
-    res = sc.replay_behaviours(ctx, binp, path, "exhaustive", roots, rstats)
+    sc.replay_behaviours(ctx, binp, path, "narrow", roots, rstats, result_files=rfiles)
+    #    wide: 2 addresses, master, code, 3 values, statedb operations (AddLog/AddTransfer/AddRefund/Suicide), <= 3 operations
+    path, n_exh, r = sc.export_behaviours(ctx, "MC_StateJournal_export3.cfg", "exhaustive", 900)
+    exhaustive_states += r.distinct
+    res = sc.replay_behaviours(ctx, binp, path, "exhaustive", roots, rstats, result_files=rfiles)
     if not ctx.violations:
         replay_demo(ctx, binp, path)          # demonstrations are meaningful on a conforming tree only
+    if not q:
+        path, _, r = sc.export_behaviours(ctx, "MC_StateJournal_export4.cfg", "exhaustive4", 3000, workers=8)
+        exhaustive_states += r.distinct
+        sc.replay_behaviours(ctx, binp, path, "exhaustive4", roots, rstats, result_files=rfiles)
     path, n_sim, _ = sc.export_behaviours(ctx, "MC_StateJournal_sim.cfg", "walks", 900 if q else 3000,
-                                          simulate="num=%d" % (60 if q else 500), depth=20)
-    sc.replay_behaviours(ctx, binp, path, "walks", roots, rstats)
+                                          simulate="num=%d" % (40 if q else 500), depth=20)
+    sc.replay_behaviours(ctx, binp, path, "walks", roots, rstats, result_files=rfiles)
     for line in open(path).readlines()[:1]:
         ctx.sample({"behaviour_from_TLC_replayed_on_real_state": sc.pretty(json.loads(line))})
 
     # 3. model -> implementation (trie): real root == reference hash of the specification's canonical shape
     tstats = {}
-    sc.trie_check(ctx, seqlen=3 if q else 4, persist_every=9 if q else 1, big=4 if q else 24, bigkeys=2000 if q else 6000, stats=tstats)
+    sc.trie_check(ctx, seqlen=3 if q else 4, persist_every=18 if q else 1, big=4 if q else 24, bigkeys=2000 if q else 6000, stats=tstats)
+    #    ... and of the state: every staged root / storage root / committed leaf of step 2 recomputed from the content alone
+    sc.states_check(ctx, rfiles, tstats)
 
     # 4. implementation -> model: seeded random histories over large universes, validated by Trace_StateJournal.tla
     demo_ok = sc.binding_demo(ctx, binp) if not ctx.violations else True
-    events, stats, how = sc.record(ctx, binp, 12 if q else 60, 500 if q else 650, "random")
+    events, stats, how = sc.record(ctx, binp, 10 if q else 60, 450 if q else 650, "random")
     accepted = 0
     if events is not None:
         accepted = sc.validate(ctx, events, stats, "random", how)
@@ -128,7 +138,7 @@ def replay_demo(ctx, binp, path):
         b = json.loads(l)
         for j in range(1, len(b) - 1):
             e = b[j]
-            later_harmless = all(x[0] in (1, 2, 3, 4, 8, 10, 11) or (x[0] == 5 and (x[1], x[2]) != (e[1], e[2])) for x in b[j + 1:])
+            later_harmless = all(x[0] in (1, 2, 3, 4, 8, 10, 11, 13, 14, 15) or (x[0] == 5 and (x[1], x[2]) != (e[1], e[2])) for x in b[j + 1:])
             if e[0] == 5 and e[3] != 0 and b[j - 1][slot(e[1], e[2])] != e[3] and b[j + 1][slot(e[1], e[2])] == e[3] and later_harmless:
                 pick = (b, j)
                 break
